@@ -178,39 +178,68 @@ def r1_r2(model, rep, r):
     if not ok:
         viol("R2", "the solver returns %s, expected (carried voltages, carried currents, sweep counter, states)" % rnames, "solver return")
     rep.instance("R2", construct + " return tuple", where, ok)
-    sa = sysrules.solve_anchors(model, r)
-    body = sa["phase_loop"].body
-    ci = [i for i, s in enumerate(body) if s is sa["solver_call"]]
-    if not ci:
-        raise AnalysisError("solver call is not a top-level statement of the phase loop")
-    ci = ci[0]
-    sdef = fn
-    ca = sysrules.call_args(sa["solver_call"].value, sdef)
-    mx = ca.get(MAXIT)
-    ok = False
-    msg = "the solver call in solve() is not followed by `raise RuntimeError` under the negation of the loop condition"
-    if ci + 1 < len(body) and isinstance(body[ci + 1], ast.If) and mx is not None and isinstance(mx, ast.Name):
-        chk = body[ci + 1]
-        raises = [s for s in chk.body if isinstance(s, ast.Raise)]
-        exc = raises[0].exc if raises else None
-        ename = exc.func.id if isinstance(exc, ast.Call) and isinstance(exc.func, ast.Name) else (exc.id if isinstance(exc, ast.Name) else None)
-        f2 = formula(chk.test, {sa["ITERS"]: fr("ITERS"), mx.id: fr("MAXITER")})
-        if raises and ename == "RuntimeError" and f2 is not None and floop is not None and not chk.orelse:
-            if f2 == Not(floop):
-                ok = True
-            else:
-                msg = "post-check `%s` is not the negation of the loop condition `%s`" % (ast.unparse(chk.test), ast.unparse(wt))
-        elif raises and ename != "RuntimeError":
-            msg = "non-convergence raises %s, not RuntimeError" % ename
-    if not ok:
-        rep.violation("R2", "system.System.solve", "%s:%d" % (rel, sa["solver_call"].lineno), msg, "post-check")
-    rep.instance("R2", "system.System.solve non-convergence check", "%s:%d" % (rel, sa["solver_call"].lineno), ok)
-    # the user's tolerances reach the solver
-    sfn = sa["fn"]
-    ok = all(sysrules.is_name(ca.get(p), q) for p, q in ((VTOL, "vtol"), (ITOL, "itol"), (MAXIT, "maxiter")))
-    if not ok:
-        rep.violation("R2", "system.System.solve", "%s:%d" % (rel, sa["solver_call"].lineno), "solve() does not hand its vtol/itol/maxiter to the solver", "tolerance args")
-    rep.instance("R2", "system.System.solve tolerance arguments", "%s:%d" % (rel, sa["solver_call"].lineno), ok)
+    # every call site of the solver in solve(): the very next statement of the same block must be the complementary check
+    sfn = model.own_method("System", "solve")
+    if sfn is None:
+        raise AnalysisError("System.solve not found")
+    sites = []
+    for blk_owner in ast.walk(sfn):
+        for fld in ("body", "orelse", "finalbody"):
+            blk = getattr(blk_owner, fld, None)
+            if not isinstance(blk, list):
+                continue
+            for i, st_ in enumerate(blk):
+                if isinstance(st_, (ast.Assign, ast.Expr, ast.AnnAssign, ast.Return)):
+                    for c in ast.walk(st_):
+                        if isinstance(c, ast.Call) and isinstance(c.func, ast.Attribute) and c.func.attr == fn.name and sysrules.is_name(c.func.value, "self"):
+                            sites.append((blk, i, st_, c))
+    if not sites:
+        raise AnalysisError("solve() does not call the solver")
+    for blk, i, st_, call in sites:
+        where2 = "%s:%d" % (rel, st_.lineno)
+        ca = sysrules.call_args(call, fn)
+        mx = ca.get(MAXIT)
+        # name of the iteration count of THIS call
+        it_expr = None
+        if isinstance(st_, ast.Assign):
+            t = st_.targets[0]
+            if isinstance(t, ast.Tuple) and len(t.elts) == 4 and isinstance(t.elts[2], ast.Name):
+                it_expr = t.elts[2].id
+            elif isinstance(t, (ast.Name, ast.Subscript, ast.Attribute)):
+                it_expr = ast.unparse(t) + "[2]"
+        ok = False
+        msg = "the solver call is not immediately followed by `raise RuntimeError` under the negation of the loop condition, so an unconverged iterate can be used"
+        if it_expr is not None and mx is not None and isinstance(mx, ast.Name) and i + 1 < len(blk) and isinstance(blk[i + 1], ast.If):
+            chk = blk[i + 1]
+            raises = [x for x in chk.body if isinstance(x, ast.Raise)]
+            exc = raises[0].exc if raises else None
+            ename = exc.func.id if isinstance(exc, ast.Call) and isinstance(exc.func, ast.Name) else (exc.id if isinstance(exc, ast.Name) else None)
+            env2 = {mx.id: fr("MAXITER")}
+            test = chk.test
+            # normalise `<result>[2]` to a name
+            class Ren(ast.NodeTransformer):
+                def visit_Subscript(self, n):
+                    if ast.unparse(n) == it_expr:
+                        return ast.copy_location(ast.Name(id="__iters__", ctx=ast.Load()), n)
+                    return self.generic_visit(n)
+            import copy as _copy
+            test2 = Ren().visit(_copy.deepcopy(test))
+            env2["__iters__" if it_expr.endswith("[2]") else it_expr] = fr("ITERS")
+            f2 = formula(test2, env2)
+            if raises and ename == "RuntimeError" and f2 is not None and floop is not None and not chk.orelse:
+                if f2 == Not(floop):
+                    ok = True
+                else:
+                    msg = "post-check `%s` is not the negation of the loop condition `%s`" % (ast.unparse(chk.test), ast.unparse(wt))
+            elif raises and ename != "RuntimeError":
+                msg = "non-convergence raises %s, not RuntimeError" % ename
+        if not ok:
+            rep.violation("R2", "system.System.solve", where2, msg, "post-check")
+        rep.instance("R2", "system.System.solve non-convergence check after the solver call", where2, ok)
+        ok = all(sysrules.is_name(ca.get(p), q) for p, q in ((VTOL, "vtol"), (ITOL, "itol"), (MAXIT, "maxiter")))
+        if not ok:
+            rep.violation("R2", "system.System.solve", where2, "solve() does not hand its vtol/itol/maxiter to the solver", "tolerance args")
+        rep.instance("R2", "system.System.solve tolerance arguments", where2, ok)
 
 
 def r3(model, rep):
